@@ -178,7 +178,13 @@ def run_check(engine: Engine, prop: str, tier: str, seed: int, jobs: int,
         cfg.update(overrides)
     print(f"[{prop}] engine={engine.name} tier={tier} VERIF_SEED={seed} runs={cfg['runs']} jobs={jobs}", flush=True)
     engine.prepare(prop, cfg)
-    batch = run_batch(engine, prop, seed, cfg, jobs)
+    if hasattr(engine, "custom_batch"):
+        try:
+            batch = engine.custom_batch(prop, seed, cfg, jobs)
+        except RuntimeError as err:
+            raise HarnessError(str(err)) from err
+    else:
+        batch = run_batch(engine, prop, seed, cfg, jobs)
     runs = batch["runs"]
     if not runs:
         raise HarnessError("no runs executed")
